@@ -281,7 +281,7 @@ func ordName(key bool) string {
 func main() {
 	o := vhlib.ParseOpts()
 	rng := vhlib.NewRng(o.Seed)
-	w := vhlib.NewWriter(o.Out, "From VF Require Import C10.Model C10.SortModel C10.Spec C10.Check.\nLocal Open Scope Z_scope.", "case", "mismatches", 60)
+	w := vhlib.NewWriter(o.Out, "From VF Require Import C10.Model C10.SortModel C10.Spec C10.Check.\nLocal Open Scope Z_scope.", "case", "mismatches", 100)
 	thorough := o.Thorough()
 
 	// ---------- 0. zsortordered.go must be zsortfunc.go with less(x, y) replaced by x < y ----------
@@ -501,6 +501,11 @@ func main() {
 		runBig("anti-quicksort", antiQuicksort(20000, true), false)
 	}
 
+	// ---------- 1b. families added after the seeded-change rounds ----------
+	doDisplaced(rng, thorough, runSortOrdered, runSortFunc) // nearly sorted with one / two displaced elements
+	doSmallPermutations(rng, w)                             // every permutation of sizes 0..6 through the stdlib-backed sorts
+	doWrappers(rng, thorough)                               // every sort entry point of every bslice wrapper flavour
+
 	// ---------- 2. searches and predicates ----------
 	doSearches(rng, thorough)
 	// ---------- 3. comparators ----------
@@ -508,14 +513,14 @@ func main() {
 
 	// ---------- emit, spreading the heavy cases over the shards ----------
 	sort.SliceStable(cases, func(i, j int) bool { return cases[i].weight > cases[j].weight })
-	nsh := (len(cases) + 59) / 60
+	nsh := (len(cases) + 99) / 100
 	shards := make([][]pending, nsh)
 	load := make([]int, nsh)
-	capOf := func(s int) int { // the writer cuts a shard every 60 cases: fill exactly so that its boundaries are ours
+	capOf := func(s int) int { // the writer cuts a shard every 100 cases: fill exactly so that its boundaries are ours
 		if s < nsh-1 {
-			return 60
+			return 100
 		}
-		return len(cases) - 60*(nsh-1)
+		return len(cases) - 100*(nsh-1)
 	}
 	for _, c := range cases { // greedy: heaviest first into the least loaded shard that still has room
 		best := -1
